@@ -2042,7 +2042,10 @@ public:
     SBEPP_CPP14_CONSTEXPR random_access_iterator&
         operator+=(difference_type n) noexcept
     {
-        ptr += n * block_length;
+        // multiply in a signed type: `block_length` is unsigned and can be
+        // wider than `int`, a negative `n` would wrap around
+        ptr += static_cast<std::ptrdiff_t>(n)
+               * static_cast<std::ptrdiff_t>(block_length);
         index += n;
         return *this;
     }
